@@ -64,7 +64,7 @@ def direct_laws(op, rng, n_sets):
     bad = []
     done = 0
     for k in range(n_sets):
-        N = int(rng.choice([4, 8, 16, 32]))
+        N = int(rng.choice([4, 8, 16, 32, 26, 34, 38, 12, 20]))       # incl. even sizes with a prime factor >= 13
         lam = float(10 ** rng.uniform(-6.5, -2.5))
         d1 = float(lam * 10 ** rng.uniform(-0.5, 4)) if k % 3 else float(lam * rng.uniform(0.2, 0.7))      # every third: sub-wavelength
         z = float(N * d1 ** 2 / lam * 10 ** rng.uniform(-1, 1)) * (1 if rng.random() < 0.5 else -1)
